@@ -71,7 +71,7 @@ def replay_case(item):
         eff = sz_ if sz_ >= 1 else ((en_ + 1 - st_) if (st_ > 0 and en_ > 0 and en_ >= st_) else 7)
         if ov_ >= eff:
             return {'ok': 2, 'obs': None, 'mode': mode}
-    kind = 'plain' if mode == 'plain' else ('ssi' if i % 7 == 3 else 'vars')
+    kind = ('plainrv0' if i % 4 == 1 else 'plain') if mode == 'plain' else ('ssi' if i % 7 == 3 else 'rv0' if i % 7 == 5 else 'vars')
     extra = batch_obs.PB if mode == 'pb' else ''
     obs = batch_obs.observe(par, kind=kind, seqkind=seqkind, as_str=(i % 2 == 1), extra=extra)
     obs['np'] = 0
@@ -84,9 +84,10 @@ def replay_case(item):
 def observe_random(item):
     i, par = item
     seqkind = _seqkind(i, par[0])
-    obs = batch_obs.observe(par, kind='vars', seqkind=seqkind, as_str=(i % 2 == 1))
+    kind = 'rv0' if i % 3 == 0 else 'vars'
+    obs = batch_obs.observe(par, kind=kind, seqkind=seqkind, as_str=(i % 2 == 1))
     obs['np'] = 0
-    obs['variant'] = ['vars', seqkind, 'batch']
+    obs['variant'] = [kind, seqkind, 'batch']
     return {'ok': 0, 'obs': obs, 'mode': 'batch'}
 
 
@@ -203,7 +204,7 @@ def main(tier):
         'lazy sequences: counting iterator, generator, __getitem__/__len__ class, sized iterable without subscription, '
         'mapping-like (keys/get) iterable; pulls are counted by the '
         'sequence itself (an iterator cannot be pulled out of order or twice)',
-        'sort/reverse/sequence-length/next-batches/statistics are excepted by the property and not used'])
+        'sort/reverse/sequence-length/next-batches/statistics are excepted by the property and not used (a reverse_expr that evaluates false reverses nothing and is used)'])
 
 
 def replay(path):
